@@ -37,11 +37,17 @@
 (*                      subscriber that stops reading blocks               *)
 (*                      Subscription.run in SendResponse, the channel      *)
 (*                      fills, the dispatcher blocks: nobody is served     *)
+(*  Dev_EndedSubFanout  same blocking send, other trigger: a subscription  *)
+(*                      whose run loop has ended (publish response to a    *)
+(*                      dropped connection failed) waits in its deferred   *)
+(*                      DeleteSubscription -> DeleteSub for Mu, which      *)
+(*                      ChangeNotification holds while it waits for that   *)
+(*                      subscription's full NotifyChannel: deadlock        *)
 (***************************************************************************)
 EXTENDS Naturals, Sequences, FiniteSets, TLC, Json
 
 CONSTANTS MaxLen, Emit,
-          Dev_TickerInterval, Dev_NoSessionCheck, Dev_NilSession, Dev_UnknownItem, Dev_BlockedFanout,
+          Dev_TickerInterval, Dev_NoSessionCheck, Dev_NilSession, Dev_UnknownItem, Dev_BlockedFanout, Dev_EndedSubFanout,
           SvcFilter    \* set of services to generate steps for ({} = all)
 
 VARIABLES alive,      \* server process is running and the dispatcher is not stuck
@@ -75,6 +81,9 @@ Kinds ==
     \* a scenario rather than a single request: the client subscribes to a node, queues publish
     \* requests, stops reading its socket, and the node is then written (large values) by the other client
     \cup {[svc |-> "SlowSubscriber", arg |-> "nonReading"]}
+    \* the client subscribes to a node, leaves publish requests queued and drops its connection
+    \* without deleting the subscription; the other client then changes the node many times at once
+    \cup {[svc |-> "DeadSubscriber", arg |-> "queuedPublish"]}
 
 SessClasses == {"own", "none", "unknown"}
 
@@ -103,6 +112,7 @@ Why(c, k, s) ==
       [] k.svc = "DeleteSubscriptions" ->
             IF SubExists(c, k.arg) /\ ~v /\ Dev_NilSession THEN "Dev_NilSession" ELSE ""
       [] k.svc = "SlowSubscriber" -> IF v /\ Dev_BlockedFanout THEN "Dev_BlockedFanout" ELSE ""
+      [] k.svc = "DeadSubscriber" -> IF v /\ Dev_EndedSubFanout THEN "Dev_EndedSubFanout" ELSE ""
       [] OTHER -> ""
 
 Step(c, k, s) ==
@@ -110,7 +120,7 @@ Step(c, k, s) ==
     /\ LET w == Why(c, k, s)
            v == Valid(c, s)
        IN /\ hist' = Append(hist, [cl |-> c, svc |-> k.svc, arg |-> k.arg, sess |-> s,
-                                   exp |-> IF w = "" THEN "ok" ELSE IF w = "Dev_BlockedFanout" THEN "hang" ELSE "crash",
+                                   exp |-> IF w = "" THEN "ok" ELSE IF w \in {"Dev_BlockedFanout", "Dev_EndedSubFanout"} THEN "hang" ELSE "crash",
                                    why |-> w])
           /\ alive' = (w = "")
           /\ sess' = IF k.svc = "CloseSession" /\ v THEN [sess EXCEPT ![c] = FALSE] ELSE sess
@@ -125,7 +135,7 @@ Init == /\ alive = TRUE /\ sess = [c \in Clients |-> TRUE] /\ sub = [c \in Clien
         /\ item = [c \in Clients |-> TRUE] /\ hist = <<>>
 
 Next == \E c \in Clients, k \in UseKinds, s \in SessClasses :
-            (k.svc = "SlowSubscriber" => s = "own") /\ Step(c, k, s)
+            (k.svc \in {"SlowSubscriber", "DeadSubscriber"} => s = "own") /\ Step(c, k, s)
 Spec == Init /\ [][Next]_vars
 
 \* C29: after every request sequence the server is alive and answers (the canary)
